@@ -145,8 +145,16 @@ func (it *refIter) NoTimestamp(byte) {}
 
 var engPrefixes = []string{"aaa", "aab", "ab\x00"}
 
+// engFixed: sessions whose keys all have the same length (no key is a prefix of another one): the radix structure's
+// known mis-ordering of prefix-related keys cannot occur there, so its divergences are not set aside (class mem-radix-clean)
+var engFixed = false
+
 func engKey(rng *rand.Rand) []byte {
 	p := engPrefixes[rng.Intn(len(engPrefixes))]
+	if engFixed {
+		suf := []string{"\x00\x00", "\x00\x01", "1\x00", "10", "2\xff", "\xff\xff", "ab", "b\x00", "\xff\x00", "11"}[rng.Intn(10)]
+		return []byte(p + suf)
+	}
 	if rng.Intn(3) > 0 {
 		p = engPrefixes[0]
 	}
@@ -161,8 +169,20 @@ func genEngine(rng *rand.Rand, tier string, emit func(string)) {
 	}
 	for s := 0; s < sessions; s++ {
 		emit("open")
+		engFixed = s%3 == 2
+		inBatchPut := false
 		for i := 0; i < per; i++ {
-			switch r := rng.Intn(20); {
+			r := rng.Intn(20)
+			if engFixed && r == 8 && inBatchPut {
+				emit("commit") // keep the session free of the radix in-batch put+delete-range trigger
+				inBatchPut = false
+			}
+			if r < 6 {
+				inBatchPut = true
+			} else if r >= 10 && r < 14 {
+				inBatchPut = false
+			}
+			switch {
 			case r < 6:
 				emit(fmt.Sprintf("put %s %s", hexs(engKey(rng)), hexs([]byte(fmt.Sprintf("v%d", rng.Intn(5))))))
 			case r < 8:
@@ -212,6 +232,7 @@ func genEngine(rng *rand.Rand, tier string, emit func(string)) {
 		emit("commit")
 		emit("iter * * 0 0 -1 0")
 	}
+	engFixed = false
 }
 
 func newEngine(c *Ctx) func(string) string {
@@ -255,6 +276,27 @@ func newEngine(c *Ctx) func(string) string {
 	trigInBatch := false           // this session committed a batch in which a delete-range covered a key put earlier in the same batch
 	var pendingPuts [][]byte       // keys put in the open batch
 	pendingTrig := false
+	var seenKeys [][]byte          // keys written in this session
+	prefixTaint := false           // two keys of this session are prefix-related (radix known finding (b))
+	noteKey := func(k []byte) {
+		for _, o := range seenKeys {
+			if bytes.Equal(o, k) {
+				return
+			}
+			if bytes.HasPrefix(o, k) || bytes.HasPrefix(k, o) {
+				prefixTaint = true
+			}
+		}
+		seenKeys = append(seenKeys, append([]byte{}, k...))
+	}
+	opTaint := false               // this op's bounds are prefix-related to a key of the session (same radix finding)
+	boundTaint := func(b []byte) {
+		for _, o := range seenKeys {
+			if !bytes.Equal(o, b) && (bytes.HasPrefix(o, b) || bytes.HasPrefix(b, o)) {
+				opTaint = true
+			}
+		}
+	}
 	var tagger func(string) string // classifies one engine's deviating answer (set per op)
 	// f runs on every real engine; refAns is the reference's answer, which is the line that is printed.
 	// Every engine that deviates from the reference is an oracle violation.
@@ -275,7 +317,11 @@ func newEngine(c *Ctx) func(string) string {
 				if tagger != nil {
 					tag += tagger(o)
 				}
-				c.Violation("engine-diverge:"+e.name+":"+opclass, fmt.Sprintf("%s answered %s, reference %s%s", e.name, o, refAns, tag))
+				name := e.name
+				if name == "mem-radix" && !trigInBatch && !pendingTrig && !prefixTaint && !opTaint {
+					name = "mem-radix-clean"
+				}
+				c.Violation("engine-diverge:"+name+":"+opclass, fmt.Sprintf("%s answered %s, reference %s%s", e.name, o, refAns, tag))
 			}
 		}
 		return refAns
@@ -286,6 +332,7 @@ func newEngine(c *Ctx) func(string) string {
 		case "open":
 			ref = &refEngine{}
 			trigInBatch, pendingPuts, pendingTrig = false, nil, false
+			seenKeys, prefixTaint = nil, false
 			return open()
 		case "put", "del", "delrange", "merge":
 			if ref == nil {
@@ -296,6 +343,7 @@ func newEngine(c *Ctx) func(string) string {
 				k, v := unhex(f[1]), unhex(f[2])
 				ref.batch = append(ref.batch, func(r *refEngine) { r.put(k, v) })
 				pendingPuts = append(pendingPuts, k)
+				noteKey(k)
 			case "del":
 				k := unhex(f[1])
 				ref.batch = append(ref.batch, func(r *refEngine) { r.del(k) })
@@ -309,6 +357,7 @@ func newEngine(c *Ctx) func(string) string {
 				}
 			case "merge":
 				k := unhex(f[1])
+				noteKey(k)
 				n, _ := strconv.ParseUint(f[2], 10, 64)
 				ref.batch = append(ref.batch, func(r *refEngine) {
 					var cur uint64
@@ -412,6 +461,14 @@ func newEngine(c *Ctx) func(string) string {
 			if f[2] != "*" {
 				mx = unhex(f[2])
 			}
+			opTaint = false
+			if mn != nil {
+				boundTaint(mn)
+			}
+			if mx != nil {
+				boundTaint(mx)
+			}
+			defer func() { opTaint = false }()
 			tp, _ := strconv.Atoi(f[3])
 			off, _ := strconv.Atoi(f[4])
 			cnt, _ := strconv.Atoi(f[5])
